@@ -212,7 +212,7 @@ func (f *fixture) history(p *world.Proxy, j *job) (Line, error) {
 	path := fmt.Sprintf("/secret/c%d", j.n)
 	// --- OAuthStart
 	start := world.Do(p.Handler, world.NewReq("GET", j.host, path, nil, nil, ""))
-	if start.Status != 302 {
+	if !world.IsRedirect(start.Status) {
 		return ln, fmt.Errorf("case %d: start: status %d", j.n, start.Status)
 	}
 	loc, err := url.Parse(start.Header.Get("Location"))
